@@ -29,7 +29,7 @@ def populate(tmp, cls, hash_name):
 
 def run():
     reps = []
-    for cls, hash_name, shallow, dry, ro in itertools.product((HashFileDB, LocalHashFileDB), (None, "md5-dos2unix"), (True, False), (True, False), (False, True)):
+    for cls, hash_name, shallow, dry, ro, only_dirs in itertools.product((HashFileDB, LocalHashFileDB), (None, "md5-dos2unix"), (True, False), (True, False), (False, True), (False, True)):
         with tempfile.TemporaryDirectory(dir="/var/tmp") as tmp:
             odb, objs = populate(tmp, cls, hash_name)
             d = objs["d"]
@@ -37,12 +37,16 @@ def run():
             expect_used = {d.hash_info.value, objs["loose1"].hash_info.value}
             if not shallow:
                 expect_used |= {hi.value for _, _, hi in d}
+            if only_dirs:
+                # everything but the directory object itself is in use: the garbage consists of directory objects only
+                used = [HashInfo(odb.hash_name, o) for o in odb.all() if not o.endswith(".dir")]
+                expect_used = {h.value for h in used}
             before = set(odb.all())
             cache = None
             if ro:
                 cache = cls(LocalFileSystem(), odb.path, **({"hash_name": hash_name} if hash_name else {}))
                 odb.read_only = True
-            rep = {"cls": cls.__name__, "hash_name": hash_name, "shallow": shallow, "dry": dry, "read_only_store_with_writable_cache_odb": ro}
+            rep = {"cls": cls.__name__, "hash_name": hash_name, "shallow": shallow, "dry": dry, "read_only_store_with_writable_cache_odb": ro, "garbage_is_directory_objects_only": only_dirs}
             try:
                 n = gc(odb, used, cache_odb=cache, shallow=shallow, dry=dry)
                 after = set(odb.all())
